@@ -169,9 +169,18 @@ impl BaseGrid {
         let dlat = header[4].copysign(lat_s - lat_n);
         let dlon = header[5].copysign(lon_e - lon_w);
         let bands = header[6] as usize;
+        if header[..6].iter().any(|h| !h.is_finite()) {
+            return Err(Error::General("Malformed header"));
+        }
         let rows = ((lat_s - lat_n) / dlat + 1.5).floor() as usize;
         let cols = ((lon_e - lon_w) / dlon + 1.5).floor() as usize;
-        let elements = rows * cols * bands;
+        // Bilinear interpolation needs at least 2 rows and 2 columns
+        if rows < 2 || cols < 2 {
+            return Err(Error::General("Malformed grid"));
+        }
+        let Some(elements) = rows.checked_mul(cols).and_then(|n| n.checked_mul(bands)) else {
+            return Err(Error::General("Malformed grid"));
+        };
 
         let offset = offset.unwrap_or(0);
 
